@@ -216,6 +216,7 @@ func init() {
 				}
 			}
 			runPureSet(c, r, pm, 12)
+			runPARENS(c, r, "PARENS")
 			ls := runLASTSTEP(c, r, "LASTSTEP")
 			r.RequireMin("LASTSTEP obligations (returns of evalPathStep, flag passed by evalPath)", ls, 3)
 			r.Assume("values registered with RegisterVars and inputs passed to Eval do not contain *jsonata.sequence (unexported type: impossible from outside the package)")
@@ -282,6 +283,7 @@ func init() {
 		Fixtures:    []string{"tab"},
 		Run: func(c *Ctx, r *Result) {
 			runPRATT(c, r, "PRATT")
+			runPARENS(c, r, "PARENS")
 			runRegistrationSwitch(c, r, "TAB")
 			// the parse is a function of the text: nothing under Compile/Parse writes memory that
 			// existed before the call (no cache of parsed sub-expressions, no global parser state)
@@ -314,6 +316,7 @@ func init() {
 		Run: func(c *Ctx, r *Result) {
 			runJSONLiterals(c, r, "TAB")
 			r.RequireMin("TAB JSON-literal obligations", len(r.Obls), 14)
+			runESCSKIP(c, r, "ESCSKIP")
 			k := runLIT(c, r, "LIT")
 			r.RequireMin("LIT literal-flow obligations", k, 6)
 			runW(c, c.G, r, "W-compile", compileRootCfg(c))
@@ -407,6 +410,8 @@ func init() {
 		Run: func(c *Ctx, r *Result) {
 			runSORT(c, c.G, r, "SORT", c.REval, c.Lib, 3)
 			runMERGE(c, r, "MERGE")
+			ml := runMISSLAST(c, r, "MISSLAST")
+			r.RequireMin("MISSLAST absent-key answers of the order-by comparator", ml, 2)
 			st := runSORTTYPES(c, r, "SORTTYPES")
 			r.RequireMin("SORTTYPES obligations in buildSortInfo", st, 3)
 			// the sort machinery works only on state of the same evaluation: every write (and every
@@ -838,6 +843,8 @@ func init() {
 			// every sub-picture is validated, whichever one renders the number
 			va := runVALIDALL(c, r, "VALIDALL")
 			r.RequireMin("VALIDALL success returns of the picture processor", va, 1)
+			ngt := runNUMGATE(c, r, "NUMGATE")
+			r.RequireMin("NUMGATE ParseFloat calls in $number", ngt, 1)
 			fb := runF2I(c, r, "F2I", c.fnsNamed(r, "jlib.FormatBase"))
 			r.RequireMin("F2I float-to-integer conversions in $formatBase", fb, 2)
 			e := newFIN(c, c.G)
@@ -1157,6 +1164,8 @@ func init() {
 			tabProved := map[string]bool{"jparse.parseBoolean": true, "jparse.parseNumericOperator": true, "jparse.parseComparisonOperator": true, "jparse.parseBooleanOperator": true}
 			p := runPanics(c, r, "PANIC", c.RCompile, tabProved)
 			r.RequireMin("PANIC string panics under Compile", p, 4)
+			oa := runOPTALL(c, r, "OPTALL")
+			r.RequireMin("OPTALL stores and returns of node values in the optimize methods", oa, 40)
 			runBNDFor(c, r, "BND", c.RCompile, "Compile", 40, 15)
 			ta := runTA(c, r, "TA", libFuncsIn(c, c.RCompile), c.RCompile)
 			r.RequireMin("TA single-result type assertions under Compile", ta, 3)
